@@ -257,8 +257,8 @@ def grouping(ctx):
     E = "elem(Iterator::enumerate(P0.types))"
     IDX = "(%s.0 as u32)" % E
     TE = "utils::types_equal(%s,elem(GROUPS)['0'],P0)" % IDX
-    exp = ("early{slice::is_empty(Path::namespace(%s.1.ty.path))=>continue}"
-           "search(GROUPS,%s,Vec::push(elem(GROUPS),%s),Vec::push(GROUPS,vec!(%s)))") % (E, TE, IDX, IDX)
+    exp = ("if(slice::is_empty(Path::namespace(%s.1.ty.path))){'()'}else{"
+           "search(GROUPS,%s,Vec::push(elem(GROUPS),%s),Vec::push(GROUPS,vec!(%s)))}") % (E, TE, IDX, IDX)
     expect_term(ctx, "C03.4", "grouping", site(loops[0]), t, exp,
                 "prelude (empty namespace) skipped; a type joins the FIRST group whose first member is shape-equal to it, otherwise it opens a new group")
     gl = N.term(loops[0], syms)
